@@ -235,13 +235,12 @@ theorem subst_no_match (re : RStr) (rep : Bytes) (g : Bool) (line : Bytes) (res 
   simp only [if_true, h, hres]
 
 /-- **subst_first**: without `g`, whatever the first match `[so, eo)` is, it is replaced by the expansion and
-    every other byte of the line is kept — provided that, when the match is empty (`eo ≤ so`: one character is
-    copied after it), that character is complete (otherwise `memcpy` reads past the terminator: a trap) -/
+    every other byte of the line is kept.  (When the match is empty, `eo ≤ so`, one character is copied after it: at
+    most what is left of the line, `MIN(uc_len(ln), strlen(ln))` — the old hypothesis "that character is complete"
+    is no longer needed.) -/
 theorem subst_first (re : RStr) (rep line : Bytes) (res : Int) (offs : List Int) (c : Nat) (x : Bytes)
     (h : rstrFind re line 16 0 ND NG = some (res, offs, c)) (hres : 0 ≤ res)
-    (hx : substExpand rep line offs = some x)
-    (hch : offs.getD 1 0 ≤ offs.getD 0 0 →
-      Uc.ucLen ((line.drop (offs.getD 1 0).toNat).headD 0) ≤ (line.drop (offs.getD 1 0).toNat).length) :
+    (hx : substExpand rep line offs = some x) :
     substLine re rep false line =
       some (some (line.take (offs.getD 0 0).toNat ++ x ++ line.drop (offs.getD 1 0).toNat)) := by
   unfold substLine
@@ -251,10 +250,9 @@ theorem subst_first (re : RStr) (rep line : Bytes) (res : Int) (offs : List Int)
   generalize offs.getD 1 0 = eo at *
   generalize offs.getD 0 0 = so at *
   generalize List.drop eo.toNat line = ln1 at *
-  generalize Uc.ucLen (ln1.headD 0) = l at *
+  generalize min (Uc.ucLen (ln1.headD 0)) ln1.length = l at *
   by_cases he : eo ≤ so
-  · have h4 : ¬ ln1.length < l := by have := hch he; omega
-    simp [he, h4]
+  · simp [he]
   · simp [he]
 
 /-- **subst_first_only**: without `g`, a non-empty first match `[so, eo)` is replaced by the expansion and
@@ -264,7 +262,8 @@ theorem subst_first_only (re : RStr) (rep line : Bytes) (res : Int) (offs : List
     (heo : offs.getD 0 0 < offs.getD 1 0) (hx : substExpand rep line offs = some x) :
     substLine re rep false line =
       some (some (line.take (offs.getD 0 0).toNat ++ x ++ line.drop (offs.getD 1 0).toNat)) :=
-  subst_first re rep line res offs c x h hres hx (fun he => absurd he (by omega))
+  have _ := heo
+  subst_first re rep line res offs c x h hres hx
 
 /-- the same with the reference expansion, when the groups are usable -/
 theorem subst_first_only_ref (re : RStr) (rep line : Bytes) (res : Int) (offs : List Int) (c : Nat)
@@ -274,15 +273,14 @@ theorem subst_first_only_ref (re : RStr) (rep line : Bytes) (res : Int) (offs : 
       some (some (line.take (offs.getD 0 0).toNat ++ expandRef rep line offs ++ line.drop (offs.getD 1 0).toNat)) :=
   subst_first_only re rep line res offs c _ h hres heo (expand_spec rep line offs hok)
 
-/-- an empty first match at the very start (`eo ≤ 0`): the expansion is inserted and, when the first
-    character is complete, the whole line follows unchanged -/
+/-- an empty first match at the very start (`eo ≤ 0`): the expansion is inserted and the whole line follows
+    unchanged (whether or not its first character is complete) -/
 theorem subst_first_only_empty (re : RStr) (rep line : Bytes) (res : Int) (offs : List Int) (c : Nat) (x : Bytes)
     (h : rstrFind re line 16 0 ND NG = some (res, offs, c)) (hres : 0 ≤ res)
-    (heo : offs.getD 1 0 ≤ 0) (hx : substExpand rep line offs = some x)
-    (hch : Uc.ucLen (line.headD 0) ≤ line.length) :
+    (heo : offs.getD 1 0 ≤ 0) (hx : substExpand rep line offs = some x) :
     substLine re rep false line = some (some (line.take (offs.getD 0 0).toNat ++ x ++ line)) := by
   have h3 : (offs.getD 1 0).toNat = 0 := by omega
-  have := subst_first re rep line res offs c x h hres hx (by rw [h3]; exact fun _ => hch)
+  have := subst_first re rep line res offs c x h hres hx
   rw [h3] at this
   exact this
 
@@ -419,8 +417,8 @@ def scan (find : Matcher) (rep : Bytes) (g : Bool) (ln : Bytes) (notbol : Bool) 
     | some x =>
       let rest := ln.drop eo
       -- after an empty match (`eo ≤ so`) one character is copied, so that the scan advances
-      let l := if eo ≤ so then Uc.ucLen (rest.headD 0) else 0
-      if l > rest.length then none else         -- a truncated character
+      --   (at most what is left of the line: `MIN(uc_len(ln), strlen(ln))`; a truncated character is copied as it is)
+      let l := if eo ≤ so then min (Uc.ucLen (rest.headD 0)) rest.length else 0
       let p : Piece := ⟨ln.take so, (ln.take eo).drop so, x, rest.take l⟩
       let rest' := rest.drop l
       if rest' = [] ∨ rest'.headD 0 = 10 ∨ g = false then some ([p], rest')
@@ -537,11 +535,9 @@ theorem go_eq_scan (re : RStr) (rep : Bytes) (g : Bool) : ∀ (n : Nat) (ln : By
             by_cases he : eo ≤ soI
             · have he' : eo.toNat ≤ soI.toNat := by omega
               simp only [he, he', decide_true, Bool.true_and, ↓reduceIte]
-              by_cases hl : Uc.ucLen (ln1.headD 0) > ln1.length
-              · rw [if_pos (decide_eq_true hl), if_pos hl]; rfl
-              · rw [if_neg (by simpa using hl), if_neg hl]
-                have := key ⟨ln.take soI.toNat, (ln.take eo.toNat).drop soI.toNat, x, ln1.take (Uc.ucLen (ln1.headD 0))⟩
-                  (ln1.drop (Uc.ucLen (ln1.headD 0)))
+              have := key ⟨ln.take soI.toNat, (ln.take eo.toNat).drop soI.toNat, x,
+                    ln1.take (min (Uc.ucLen (ln1.headD 0)) ln1.length)⟩
+                  (ln1.drop (min (Uc.ucLen (ln1.headD 0)) ln1.length))
                   (by
                     intro hne
                     cases ln1 with
@@ -552,8 +548,8 @@ theorem go_eq_scan (re : RStr) (rep : Bytes) (g : Bool) : ∀ (n : Nat) (ln : By
                       simp only [List.headD_cons, List.length_drop, List.length_cons] at hln1len ⊢
                       omega)
                   (fun b hb => h01 b (List.mem_of_mem_drop hb))
-                simp only [List.append_assoc] at this ⊢
-                exact this
+              simp only [List.append_assoc] at this ⊢
+              exact this
             · have he' : ¬ eo.toNat ≤ soI.toNat := by omega
               have he0 : eo.toNat ≠ 0 := by omega
               simp only [he, he', decide_false, Bool.false_and, Bool.false_eq_true, ↓reduceIte, gt_iff_lt,
@@ -612,7 +608,7 @@ theorem scan_cases {find : Matcher} {rep : Bytes} {g : Bool} {ln : Bytes} {nb : 
     (h : scan find rep g ln nb = some (ps, rest)) :
     (find ln nb = some none ∧ ps = [] ∧ rest = ln) ∨
     ∃ so eo offs x l ps', find ln nb = some (some (so, eo, offs)) ∧ expandOpt rep ln offs = some x ∧
-      l = (if eo ≤ so then Uc.ucLen ((ln.drop eo).headD 0) else 0) ∧ l ≤ (ln.drop eo).length ∧
+      l = (if eo ≤ so then min (Uc.ucLen ((ln.drop eo).headD 0)) (ln.drop eo).length else 0) ∧ l ≤ (ln.drop eo).length ∧
       ps = ⟨ln.take so, (ln.take eo).drop so, x, (ln.drop eo).take l⟩ :: ps' ∧
       ((ps' = [] ∧ rest = (ln.drop eo).drop l) ∨
        (((ln.drop eo).drop l).length < ln.length ∧ scan find rep g ((ln.drop eo).drop l) true = some (ps', rest))) := by
@@ -626,21 +622,19 @@ theorem scan_cases {find : Matcher} {rep : Bytes} {g : Bool} {ln : Bytes} {nb : 
     · cases h
     · rename_i x hx
       simp only [] at h
-      generalize hl : (if eo ≤ so then Uc.ucLen ((ln.drop eo).headD 0) else 0) = l at h
+      generalize hl : (if eo ≤ so then min (Uc.ucLen ((ln.drop eo).headD 0)) (ln.drop eo).length else 0) = l at h
+      have hle : l ≤ (ln.drop eo).length := by rw [← hl]; split <;> omega
       split at h
       · cases h
-      · rename_i hle
-        split at h
-        · cases h
-          exact ⟨so, eo, offs, x, l, [], hf, hx, hl.symm, by omega, rfl, Or.inl ⟨rfl, rfl⟩⟩
-        · split at h
-          · rename_i hlt
-            split at h
-            · cases h
-            · rename_i ps' r' hs
-              cases h
-              exact ⟨so, eo, offs, x, l, ps', hf, hx, hl.symm, by omega, rfl, Or.inr ⟨hlt, hs⟩⟩
+        exact ⟨so, eo, offs, x, l, [], hf, hx, hl.symm, hle, rfl, Or.inl ⟨rfl, rfl⟩⟩
+      · split at h
+        · rename_i hlt
+          split at h
           · cases h
+          · rename_i ps' r' hs
+            cases h
+            exact ⟨so, eo, offs, x, l, ps', hf, hx, hl.symm, hle, rfl, Or.inr ⟨hlt, hs⟩⟩
+        · cases h
 
 /-- the pieces partition the line: skipped bytes, matched bytes, copied character, ..., rest — in order -/
 theorem scan_src (find : Matcher) (hord : find.Ordered) (rep : Bytes) (g : Bool) : ∀ (n : Nat) (ln : Bytes), ln.length < n →
@@ -743,7 +737,7 @@ theorem scan_cases_go {find : Matcher} {rep : Bytes} {g : Bool} {ln : Bytes} {nb
     (h : scan find rep g ln nb = some (ps, rest)) :
     (find ln nb = some none ∧ ps = [] ∧ rest = ln) ∨
     ∃ so eo offs x l ps', find ln nb = some (some (so, eo, offs)) ∧ expandOpt rep ln offs = some x ∧
-      l = (if eo ≤ so then Uc.ucLen ((ln.drop eo).headD 0) else 0) ∧ l ≤ (ln.drop eo).length ∧
+      l = (if eo ≤ so then min (Uc.ucLen ((ln.drop eo).headD 0)) (ln.drop eo).length else 0) ∧ l ≤ (ln.drop eo).length ∧
       ps = ⟨ln.take so, (ln.take eo).drop so, x, (ln.drop eo).take l⟩ :: ps' ∧
       ((ps' = [] ∧ rest = (ln.drop eo).drop l) ∨
        ((ln.drop eo).drop l ≠ [] ∧ ((ln.drop eo).drop l).headD 0 ≠ 10 ∧ g = true ∧
@@ -758,27 +752,25 @@ theorem scan_cases_go {find : Matcher} {rep : Bytes} {g : Bool} {ln : Bytes} {nb
     · cases h
     · rename_i x hx
       simp only [] at h
-      generalize hl : (if eo ≤ so then Uc.ucLen ((ln.drop eo).headD 0) else 0) = l at h
+      generalize hl : (if eo ≤ so then min (Uc.ucLen ((ln.drop eo).headD 0)) (ln.drop eo).length else 0) = l at h
+      have hle : l ≤ (ln.drop eo).length := by rw [← hl]; split <;> omega
       split at h
       · cases h
-      · rename_i hle
+        exact ⟨so, eo, offs, x, l, [], hf, hx, hl.symm, hle, rfl, Or.inl ⟨rfl, rfl⟩⟩
+      · rename_i hgo
         split at h
-        · cases h
-          exact ⟨so, eo, offs, x, l, [], hf, hx, hl.symm, by omega, rfl, Or.inl ⟨rfl, rfl⟩⟩
-        · rename_i hgo
+        · rename_i hlt
           split at h
-          · rename_i hlt
-            split at h
-            · cases h
-            · rename_i ps' r' hs
-              cases h
-              refine ⟨so, eo, offs, x, l, ps', hf, hx, hl.symm, by omega, rfl, Or.inr ⟨?_, ?_, ?_, hlt, hs⟩⟩
-              · exact fun h => hgo (Or.inl h)
-              · exact fun h => hgo (Or.inr (Or.inl h))
-              · cases g
-                · exact absurd (Or.inr (Or.inr rfl)) hgo
-                · rfl
           · cases h
+          · rename_i ps' r' hs
+            cases h
+            refine ⟨so, eo, offs, x, l, ps', hf, hx, hl.symm, hle, rfl, Or.inr ⟨?_, ?_, ?_, hlt, hs⟩⟩
+            · exact fun h => hgo (Or.inl h)
+            · exact fun h => hgo (Or.inr (Or.inl h))
+            · cases g
+              · exact absurd (Or.inr (Or.inr rfl)) hgo
+              · rfl
+        · cases h
 
 /-- **scan_progress**: every round but the last consumes at least one byte of the line — the skipped, the
     matched and the copied text of a piece that is not the last are not all empty.  (With the test
@@ -846,7 +838,7 @@ theorem empty_match_then_char (find : Matcher) (hord : find.Ordered) (rep : Byte
             have ha : a ≠ 0 := h0 a (List.mem_of_mem_drop (hd ▸ List.mem_cons_self))
             have hpos := C12.ucLen_pos (c := a) (by omega)
             rw [hd] at hl
-            simp only [List.headD_cons] at hl
+            simp only [List.headD_cons, List.length_cons] at hl
             intro hnil
             have := congrArg List.length hnil
             simp only [List.length_take, List.length_cons, List.length_nil] at this
